@@ -231,7 +231,9 @@ def run(ctx):
                                    "sigLen": 16, "ctCut": 0, "hk": "right", "ak": "right", "verify": True,
                                    "r": "ok" if d[0] == "ok" else ("ValueError" if d[0] == "ValueError" else d[1]), "isPlain": False, "outLen": 0})
                         ctx.evaluations += 1
-    bad = core.tlc_judge(ctx, "PacketIO", ioc, ev, env={"TIER": ctx.tier})
+    # canary: a tampered packet that was "accepted" although verification was on
+    canary = {"op": "decrypt", "ptLen": 5, "ctFlips": [["byte0", 0]], "sigFlips": [], "sigLen": 16, "ctCut": 0, "hk": "right", "ak": "right", "verify": True, "r": "ok", "isPlain": False, "outLen": 16}
+    bad = core.tlc_judge(ctx, "PacketIO", ioc, ev, env={"TIER": ctx.tier}, canary=canary)
     for i, failed in bad:
         e = dict(ev[i])
         for k in ("data", "out", "ct", "sig"):
